@@ -874,7 +874,8 @@ def coalesce_copies(fn, ref_names, params):
                 if any(isinstance(m, ast.Name) and m.id == t and id(m) not in inside for m in ast.walk(fn)):
                     continue        # T used outside the region
                 between = block[k + 1:j]
-                if any(isinstance(m, ast.Name) and m.id == x for b in between for m in ast.walk(b)):
+                xb = x.split('\x01')[0]       # webs of one name are merged again afterwards: interference is judged on the spelling
+                if any(isinstance(m, ast.Name) and m.id.split('\x01')[0] == xb for b in between for m in ast.walk(b)):
                     continue        # X read or written in between
                 if any(isinstance(m, (ast.Lambda, ast.FunctionDef)) for b in block[k:j] for m in ast.walk(b)):
                     continue
@@ -939,7 +940,7 @@ def _inline_new_temps(fn, ref_names, params, stats, key):
         if any(id(n) not in later for n in loads):
             continue
         # operands must keep their value between the definition and the uses
-        operands = _names_read(st.value)
+        operands = {o.split('\x01')[0] for o in _names_read(st.value)}      # by spelling: split webs are merged again afterwards
         last = max(order[id(n)] for n in loads)
         bad = False
         inside = {id(n) for n in ast.walk(st)}
@@ -951,20 +952,20 @@ def _inline_new_temps(fn, ref_names, params, stats, key):
         for n in ast.walk(fn):
             if id(n) in inside:
                 continue            # the comprehension variables of the moved expression itself
-            if isinstance(n, ast.Name) and n.id in operands and isinstance(n.ctx, (ast.Store, ast.Del)):
+            if isinstance(n, ast.Name) and n.id.split('\x01')[0] in operands and isinstance(n.ctx, (ast.Store, ast.Del)):
                 if pos < order[id(n)] <= last or any(lp in _enclosing_loops(fn, n) for lp in _loops_between(fn, st, loads)):
                     bad = True
             if isinstance(n, ast.Call) and isinstance(n.func, ast.Attribute) and n.func.attr in MUTATORS and pos < order[id(n)] <= last:
                 root = n.func.value
                 while isinstance(root, (ast.Attribute, ast.Subscript)):
                     root = root.value
-                if isinstance(root, ast.Name) and root.id in operands:
+                if isinstance(root, ast.Name) and root.id.split('\x01')[0] in operands:
                     bad = True
             if isinstance(n, (ast.Subscript, ast.Attribute)) and isinstance(n.ctx, (ast.Store, ast.Del)) and pos < order[id(n)] <= last:
                 root = n.value
                 while isinstance(root, (ast.Attribute, ast.Subscript)):
                     root = root.value
-                if isinstance(root, ast.Name) and root.id in operands:
+                if isinstance(root, ast.Name) and root.id.split('\x01')[0] in operands:
                     bad = True
         if bad:
             continue
